@@ -574,6 +574,8 @@ def _robust_gp_fit_(
                 # Remove also user specified noise
                 if tmp_gp.s2 is not None and tmp_gp.s2.size > 0:
                     tmp_gp.s2 = tmp_gp.s2[~idx_drop_out]
+                if s2 is not None and not np.isscalar(s2):
+                    s2 = s2[~idx_drop_out]
 
             # Retry with random sample prior
             old_hyp_gp = (
